@@ -112,7 +112,7 @@ func (s *c07Strategy) GetPublicKey() (ed25519.PublicKey, error) {
 	return s.key.Public().(ed25519.PublicKey), nil
 }
 
-// VH_C07_SignAndAdd: SignAndAddNewSignature from an integrity block that already holds 0..1 signatures, with a
+// VH_C07_SignAndAdd: SignAndAddNewSignature from an integrity block that already holds 0..2 (thorough 0..3) signatures, with a
 // symbolic 64-byte web-bundle hash, 1..2 attributes (the public key plus an optional extra attribute with symbolic
 // value; Go map order nondeterministic) and a signing strategy that is honest / signs with ANOTHER key / returns 64
 // arbitrary bytes / fails (Ed25519 idealised):
@@ -128,11 +128,15 @@ func VH_C07_SignAndAdd() {
 	hash := vh.Bytes("hash", 64)
 	ib := generateEmptyIntegrityBlock()
 	var stack []r7Sig
-	if vh.Choose(2) == 1 {
-		oldSig := vh.Bytes("oldsig", 64)
-		oldAttrs := SignatureAttributesMap{Ed25519publicKeyAttributeName: []byte(keyB.Public().(ed25519.PublicKey))}
-		ib.addNewSignatureToIntegrityBlock(oldAttrs, oldSig)
-		stack = []r7Sig{{[]r7Attr{{Ed25519publicKeyAttributeName, []byte(keyB.Public().(ed25519.PublicKey))}}, oldSig}}
+	// 0..2 (thorough 0..3) signatures already in the block, added oldest first through the real code
+	nOld := vh.Choose(3 + vh.Tier())
+	for i := 0; i < nOld; i++ {
+		oldSig := vh.Bytes([]string{"old0", "old1", "old2"}[i], 64)
+		pk := []byte(keyB.Public().(ed25519.PublicKey))
+		pk = append([]byte{}, pk...)
+		pk[0] ^= byte(i) // distinct attribute values per entry so that a duplicated / lost entry is visible
+		ib.addNewSignatureToIntegrityBlock(SignatureAttributesMap{Ed25519publicKeyAttributeName: pk}, oldSig)
+		stack = append([]r7Sig{{[]r7Attr{{Ed25519publicKeyAttributeName, pk}}, oldSig}}, stack...)
 	}
 	attrs := GenerateSignatureAttributesWithPublicKey(pubA)
 	rattrs := []r7Attr{{Ed25519publicKeyAttributeName, []byte(pubA)}}
